@@ -81,7 +81,7 @@ def run(ctx, ck):
         ck.ob('R-FRESH.segments', '%s|fallback#%d' % (cs.qual, n_fb), ok, cs.loc(h),
               'Taper_Error falls back to equal segmentation: %s' % txt)
         n_fb += 1
-    ck.floor('taper fallbacks', n_fb, 2)
+    ck.floor('taper fallbacks', n_fb, 1)
 
     # ---------------------------------------------------------------- curves
     for q in ('mininec.Arc.__init__', 'mininec.Helix.__init__'):
